@@ -451,11 +451,13 @@ def run_open_sequence(rec, spec):
     pi, pt, mb = 7, 3, 5000
     sim = scen.make_sim(srv, server_kwargs={
         'ping_interval': pi, 'ping_timeout': pt, 'max_http_buffer_size': mb,
-        'allow_upgrades': au})
+        'allow_upgrades': au},
+        websocket_available=not spec.get('nodrv'))
 
     def Vv(key, msg):
-        rec.viol(key, msg + ' | OPEN SEQUENCE server=%s allow_upgrades=%r '
-                 'opens=%r' % (srv, au, kinds), case)
+        rec.viol(key, msg + ' | OPEN SEQUENCE server=%s%s allow_upgrades=%r '
+                 'opens=%r' % (srv, ' (no WebSocket driver)'
+                               if spec.get('nodrv') else '', au, kinds), case)
     try:
         for k, kind in enumerate(kinds):
             n0 = len(sim.events)
@@ -612,6 +614,12 @@ def plan(tier, seed):
             for _ in range(400 if tier == 'thorough' else 3):
                 seqs.append({'srv': srv, 'au': au, 'kinds': [
                     rng.choice(kinds) for _ in range(rng.randint(3, 6))]})
+            if srv in ('T', 'A'):
+                # a deployment whose driver has no WebSocket support: every
+                # handshake of the sequence says so, not only the first
+                seqs.append({'srv': srv, 'au': au, 'nodrv': True,
+                             'kinds': ['polling', 'polling', 'jsonp',
+                                       'polling', 'polling']})
     shards.append({'cells': [], 'overlaps': over, 'openseqs': seqs,
                    'cookieseqs': [{'srv': x} for x in SRV]})
     return shards
